@@ -388,31 +388,29 @@ func runC16(c *Ctx, r *Report, tier string) {
 	maskEmpty := func(t string) LitMatch {
 		return func(l Lit) bool { return !l.Pos && strings.HasPrefix(l.Term, "nonempty(Option.DefaultMask("+t) }
 	}
-	// help: the literal flows into `def` phi; every edge carrying defaultLiteral requires an empty mask
+	// help: the value rendered as "(default: …)" — each of its origins is the literal under an empty
+	// mask, the mask itself unless it is "-", or nothing
 	nM := 0
-	for _, b := range c.blocks(who) {
-		for _, in := range b.Instrs {
-			p, ok := in.(*ssa.Phi)
-			if !ok {
-				continue
-			}
-			for i, e := range p.Edges {
-				t := c.term(e)
-				if t != "Option.defaultLiteral(P2)" && !strings.Contains(t, "Option.Default(P2)") {
-					continue
-				}
+	for _, in := range c.instrs(who, c.isCallTo("fmt.Sprintf")) {
+		call := in.(*ssa.Call)
+		if f, ok := constStr(call.Call.Args[0]); !ok || !strings.Contains(f, "default:") {
+			continue
+		}
+		es := sliceLitElems(call.Call.Args[1])
+		if len(es) < 2 {
+			r.Fail("MASK", wn, "default rendering", c.ipos(in), "the `(default: …)` format has no default operand")
+			continue
+		}
+		for _, o := range c.originsOf(es[1], in) {
+			switch {
+			case o.Term == "Option.defaultLiteral(P2)" || strings.Contains(o.Term, "Option.Default(P2)"):
 				nM++
-				pred := p.Block().Preds[i]
-				_, req := c.Requires(who, isInstr(pred.Instrs[len(pred.Instrs)-1]), maskEmpty("P2"), nil)
-				r.Check(req, "MASK", wn, "default literal shown only without a mask", c.ipos(pred.Instrs[len(pred.Instrs)-1]), "REQ(len(DefaultMask) == 0)", "the real default can be printed although a default-mask is declared")
-			}
-			// the mask edge: "-" prints nothing
-			for i, e := range p.Edges {
-				if c.term(e) == "Option.DefaultMask(P2)" {
-					pred := p.Block().Preds[i]
-					_, req := c.Requires(who, isInstr(pred.Instrs[len(pred.Instrs)-1]), litIs(`eq("-", Option.DefaultMask(P2))`, false), nil)
-					r.Check(req, "MASK", wn, "mask \"-\" prints no default", c.ipos(pred.Instrs[len(pred.Instrs)-1]), "the mask is shown only when it is not \"-\"", "a mask of \"-\" is printed")
-				}
+				r.Check(c.reqAt(who, o, maskEmpty("P2")), "MASK", wn, "default literal shown only without a mask", c.ipos(o.At), "REQ(len(DefaultMask) == 0)", "the real default can be printed although a default-mask is declared")
+			case o.Term == "Option.DefaultMask(P2)":
+				r.Check(c.reqAt(who, o, litIs(`eq("-", Option.DefaultMask(P2))`, false)), "MASK", wn, "mask \"-\" prints no default", c.ipos(o.At), "the mask is shown only when it is not \"-\"", "a mask of \"-\" is printed")
+			case o.Term == `""`:
+			default:
+				r.Fail("MASK", wn, "default rendering", c.ipos(o.At), "the rendered default may also be "+trunc(o.Term, 100))
 			}
 		}
 	}
